@@ -28,6 +28,7 @@ from ._util import _determine_license_path, relative_from_root
 from .covered_files import iter_files
 from .exceptions import (
     GlobalLicensingConflictError,
+    LicenseConflictError,
     SpdxIdentifierNotFoundError,
 )
 from .extract import _LICENSEREF_PATTERN, reuse_info_of_file
@@ -433,17 +434,16 @@ class Project:
                     )
 
             if identifier in license_files:
-                _LOGGER.critical(
-                    _(
-                        "{identifier} is the SPDX License Identifier of both"
-                        " {path} and {other_path}"
-                    ).format(
-                        identifier=identifier,
-                        path=path,
-                        other_path=license_files[identifier],
-                    )
+                message = _(
+                    "{identifier} is the SPDX License Identifier of both"
+                    " {path} and {other_path}"
+                ).format(
+                    identifier=identifier,
+                    path=path,
+                    other_path=license_files[identifier],
                 )
-                raise RuntimeError("Multiple licenses resolve to {identifier}")
+                _LOGGER.critical(message)
+                raise LicenseConflictError(message)
             # Add the identifiers
             license_files[identifier] = path
             if (
